@@ -1,0 +1,8 @@
+//go:build !verif
+
+package godi
+
+// verifGate and verifEvent are verification hook points. Without the "verif"
+// build tag they are empty and compile to nothing.
+func verifGate(string, ...any)  {}
+func verifEvent(string, ...any) {}
